@@ -1,6 +1,7 @@
 import SideVerif.Drive.C10
 import SideVerif.Drive.Cal
 import SideVerif.Drive.C01
+import SideVerif.Drive.C07
 open Lean
 namespace SideVerif.Drive
 
@@ -11,6 +12,7 @@ def dispatch (op : String) (j : Json) : Except String Json :=
   | "cal.trunc" => calTrunc j
   | "cal.compat" => calCompat j
   | "c01" => c01 j
+  | "c07.fn" => c07Fn j
   | "ping" => pure (Json.str "pong")
   | _ => throw s!"unknown op {op}"
 
